@@ -36,7 +36,7 @@ type Op struct {
 	// branch was taken), so residue of an aborted attempt cannot hide behind an identical re-execution.
 	OnlyFaulty bool
 	Fwd        bool // (writes) append "~" + the value last read in this attempt: the value is relayed, tagged
-	Raw  bool   // (with Fwd) the relayed value keeps the vector clock it arrived with (as seen below iface.Read)
+	Raw        bool // (with Fwd) the relayed value keeps the vector clock it arrived with (as seen below iface.Read)
 }
 
 func (o Op) String() string {
@@ -187,6 +187,8 @@ type Result struct {
 	RunErr    error
 	NonTriv   bool
 	Unplanned int // aborts not caused by the plan (time-outs)
+	// SpuriousDefaults: reads of a default-on-time-out input that answered the default although something was queued
+	SpuriousDefaults int
 	// Anomalies: attempts for which the recorder received no event, events that arrived without a
 	// new attempt having begun. Not failures for C01; C18 judges them.
 	Anomalies []string
@@ -194,11 +196,12 @@ type Result struct {
 }
 
 type runner struct {
-	p      *Program
-	insts  []Instance
-	labels []string
-	name   string // archetype name
-	progID int
+	spuriousDefaults int
+	p                *Program
+	insts            []Instance
+	labels           []string
+	name             string // archetype name
+	progID           int
 	// attempt bookkeeping that does not depend on the trace
 	seq       int
 	open      bool // an attempt has begun and has not been settled
@@ -557,13 +560,21 @@ func (r *runner) doOp(iface distsys.ArchetypeInterface, j int, op Op) error {
 			}
 			rec.Tok = got
 		}
+		spurious := false
+		if e, isE := in.(EmptyReadOK); isE && e.EmptyReadOK() && err == nil && ok && got != want && got == e.EmptyDefault() {
+			// The resource answered its "nothing there" default although something is queued: its time-out fired
+			// first. (The code is `select { case v := <-ch: ...; case <-time.After(timeout): default }`; a thread
+			// descheduled for longer than the time-out between arming the timer and entering the select finds both
+			// cases ready.) Nothing was consumed; the model keeps the item. Counted, not asserted.
+			spurious = true
+		}
 		if rec.Performed {
 			// performed (possibly reported as failed afterwards: the abort must then restore it)
 			r.cur.Touched[op.Res] = true
 			if in.Consuming() {
 				r.cur.Kinds[in.Kind()] = true
 			}
-			if ok {
+			if ok && !spurious {
 				in.MConsume(op.Idx)
 			}
 			if linked != nil {
@@ -584,6 +595,10 @@ func (r *runner) doOp(iface distsys.ArchetypeInterface, j int, op Op) error {
 			return errStop
 		}
 		r.cur.Reads = append(r.cur.Reads, name+"="+got)
+		if spurious {
+			r.spuriousDefaults++
+			return nil
+		}
 		if got != want {
 			r.fail("l%d attempt %d op %d: %s read %q, the last committed state (plus this attempt's own writes) holds %q", r.cur.Label, r.cur.Attempt, j, name, got, want)
 			return errStop
@@ -829,6 +844,7 @@ func Execute(p *Program, insts []Instance, opt Options) Result {
 	res.Events = r.events
 	res.NonTriv = r.nontriv
 	res.Unplanned = r.unplanned
+	res.SpuriousDefaults = r.spuriousDefaults
 	res.Anomalies = r.anomalies
 	res.Finished = r.finished
 	return res
